@@ -1487,10 +1487,15 @@ func (g *Gen) anchored(st *State, line, kind string) {
 				fnName := g.rootFn.RelString(g.rootFn.Pkg.Pkg)
 				pos := g.posStr(g.curPos)
 				site := fmt.Sprintf("%s/cover@%s", fnName, pos)
+				// a cover clause that names a local the changed code no longer has is drift (dropped for this run), as for invariants
+				cov, okc := g.evalAssumeOrDrift(ctx, c, "cover at")
+				if !okc {
+					continue
+				}
 				g.oblCount[site]++
 				g.obls = append(g.obls, &Obligation{Name: fmt.Sprintf("%s#%d", site, g.oblCount[site]), Clause: fnName + " :: " + c.ID, Kind: "cover", Pos: pos,
 					Src: g.W.sourceLine(g.curPos), Desc: "reachable with " + c.Src, Func: fnName, prefix: len(g.lines), pc: st.pc,
-					goal: "(not " + g.evalAssume(ctx, c.E) + ")", Cover: true})
+					goal: "(not " + cov + ")", Cover: true})
 				continue
 			}
 			if c.Kind != kind {
